@@ -526,12 +526,84 @@ def checkSetup (gl : GlobalCfg) (groups : List Group) : List Ip → List PeerCas
                 ++ cfgOk gl w (a.bytes.length = 16) r.cfg r.role)).andThen fun _ =>
               checkSetup gl groups (a :: taken) pcs ads rows
 
-def checkHist (gl : GlobalCfg) (groups : List Group) (peers : List PeerCase) (ops : List Op) (h : HistObs) : Verdict :=
+def checkHistOn (gl : GlobalCfg) (groups : List Group) (peers : List PeerCase) (ops : List Op) (h : HistCore) : Verdict :=
   (checkSetup gl groups [] peers h.added h.setup).andThen fun _ =>
     let rows := h.setup.map fun r => { addr := r.addr, adminDown := r.adminDown, dyn := false, slotA := false, slotP := false : SnapRow }
     if h.setup.length != (h.added.filter id).length then .fail 0 "setup-rows" else
     checkSteps gl groups 1
       { rows := rows, known := h.setup.map fun r => ⟨r.addr, r.cfg, r.role⟩, live := [], nextSid := 0 } ops h.steps
+
+/-! ## Part 5: what counts as configured
+
+  A dynamic-neighbour prefix is a prefix: its length does not exceed the address length.  Anything
+  else in the configuration permits nobody and must not be admitted; a valid prefix must be admitted
+  the first time it is given (giving it again changes nothing, whatever the answer).
+
+  A neighbour given through the API carries `hold_time` (0 = not set: the default of 180 s applies)
+  and per family a send-max (0 = no add-path send).  A hold time of 1 or 2 s, or one that does not fit
+  the two-octet OPEN field, is not a hold time (RFC 4271 §4.2): such a neighbour must be refused.
+  Whether a neighbour without expected AS and without group, or with a send-max above 255, is taken
+  is left to the implementation: when it is taken it is judged like any other. -/
+
+def checkNetFlags (k : Nat) : List Net → List Net → List Bool → Verdict
+  | [], _, [] => .ok
+  | n :: t, seen, f :: fl =>
+      if !maskInRange n then
+        if f then .fail k "invalid-prefix-admitted" else checkNetFlags k t seen fl
+      else if seen.contains n then checkNetFlags k t seen fl
+      else if !f then .fail k "configured-prefix-refused" else checkNetFlags k t (n :: seen) fl
+  | _, _, _ => .fail k "prefix-answers-length"
+
+def checkNets : List Group → List (List Bool) → Verdict
+  | [], [] => .ok
+  | g :: gs, fl :: fls => (checkNetFlags 0 g.nets [] fl).andThen fun _ => checkNets gs fls
+  | _, _ => .fail 0 "prefix-answers-length"
+
+/-- the group with what counts as its dynamic-neighbour prefixes -/
+def prefixesOf (g : Group) : Group := { g with nets := g.nets.filter maskInRange }
+
+inductive ApiClass where
+  | valid | mustRefuse | mayRefuse
+  deriving DecidableEq
+
+def holdTimeOk (h : Nat) : Bool := h = 0 || (3 ≤ h && h ≤ 65535)
+
+def apiClass (pc : PeerCase) : ApiClass :=
+  if !pc.api then .valid
+  else if !holdTimeOk pc.params.hold then .mustRefuse
+  else if pc.params.expected = 0 && pc.group.isNone then .mayRefuse
+  else if pc.params.sm.any (fun e => e.2 > 255) then .mayRefuse
+  else .valid
+
+/-- the configuration an API request stands for -/
+def apiReading (pc : PeerCase) : PeerCase :=
+  if !pc.api then pc
+  else { pc with
+    api := false
+    params := { pc.params with
+      hold := if pc.params.hold = 0 then 180 else pc.params.hold
+      sm := pc.params.sm.filter fun e => e.2 > 0 } }
+
+/-- the neighbours that are configured, with their `added` answers; a refused API neighbour is not -/
+def apiSplit : List PeerCase → List Bool → Option (Option (List PeerCase × List Bool))
+  | [], [] => some (some ([], []))
+  | pc :: t, f :: fl =>
+      match apiSplit t fl with
+      | none => none
+      | some none => some none
+      | some (some (ps, fs)) =>
+          match apiClass pc with
+          | .valid => some (some (apiReading pc :: ps, f :: fs))
+          | .mustRefuse => if f then some none else some (some (ps, fs))
+          | .mayRefuse => if f then some (some (apiReading pc :: ps, f :: fs)) else some (some (ps, fs))
+  | _, _ => none
+
+def checkHist (gl : GlobalCfg) (groups : List Group) (peers : List PeerCase) (ops : List Op) (h : HistObs) : Verdict :=
+  (checkNets groups h.netsAdded).andThen fun _ =>
+    match apiSplit peers h.added with
+    | none => .fail 0 "setup-length"
+    | some none => .fail 0 "neighbour-with-invalid-hold-time-added"
+    | some (some (ps, fs)) => checkHistOn gl (groups.map prefixesOf) ps ops ⟨fs, h.setup, h.steps⟩
 
 def check : Case → Obs → Verdict
   | .neg l r sm, .neg o => checkNeg l r sm o
